@@ -64,7 +64,7 @@ func (c16) Workers() int  { return 64 }
 // stanza decoder); the driver then finds the case among the ones in flight.
 func (c16) Journal() bool { return true }
 func (c16) Rule() string {
-	return "digest-seq cases: Component.handshake called 2-4 times on the SAME Component value with different (and repeated, empty) ids; reconnect cases: the SAME Component connects 2-4 times in a row (Connect/Resume) to the scripted server, a fresh escaped/non-ASCII/empty/1 kB stream id per connection, sessions ended by a TCP drop, a server-side stream close or Disconnect, optionally one refused handshake in between - the digest of every connection is compared; digest cases: random (id, secret) byte strings through Component.handshake (lengths 0..1100 incl. every SHA-1 padding boundary, XML-special, non-ASCII, NUL/0xff bytes); connect cases: Component.Connect against a scripted TCP server, id sent XML-escaped in the stream header (entities, numeric references, either quote, missing attribute, 1 kB; random attribute layouts with namespace-qualified look-alikes xml:id / x:id / y:id before, after and on both sides of the unqualified id, prefix declarations before or after their use, id first / last / in the middle of many attributes), every reply kind (handshake forms, 25 stream-error conditions, 12 other packet kinds incl. a stanza whose delegation/forwarded payload is nested 3 to 300 000 levels deep, unknown/malformed/closed), transport failures and a failing handshake write; distinct = distinct (kind, total length mod 64, block count, id class, header, pre, reply); non-trivial = digest of a non-empty input, a connect case that reaches the reply, or a sequence of at least two handshakes"
+	return "digest-seq cases: Component.handshake called 2-4 times on the SAME Component value with different (and repeated, empty) ids; reconnect cases: the SAME Component connects 2-4 times in a row (Connect/Resume) to the scripted server, a fresh escaped/non-ASCII/empty/1 kB stream id per connection, sessions ended by a TCP drop, a server-side stream close or Disconnect, optionally one refused or cut handshake in between (incl. a fixed family: an orderly closed established session followed by a connection on which the server hangs up or says something else instead of answering) - digest, error, state and routing of every connection are compared; the model is given the header bytes the server wrote and encoding/xml's tokens of the reply and reads the stream id / classifies the reply itself; digest cases: random (id, secret) byte strings through Component.handshake (lengths 0..1100 incl. every SHA-1 padding boundary, XML-special, non-ASCII, NUL/0xff bytes); connect cases: Component.Connect against a scripted TCP server, id sent XML-escaped in the stream header (entities, numeric references, either quote, missing attribute, 1 kB; random attribute layouts with namespace-qualified look-alikes xml:id / x:id / y:id before, after and on both sides of the unqualified id, prefix declarations before or after their use, id first / last / in the middle of many attributes), every reply kind (handshake forms, 25 stream-error conditions, 12 other packet kinds incl. a stanza whose delegation/forwarded payload is nested 3 to 300 000 levels deep, unknown/malformed/closed), transport failures and a failing handshake write; distinct = distinct (kind, total length mod 64, block count, id class, header, pre, reply); non-trivial = digest of a non-empty input, a connect case that reaches the reply, or a sequence of at least two handshakes"
 }
 
 // ---------------------------------------------------------------- replies
@@ -453,7 +453,8 @@ func (c16) Gen(r *rand.Rand, tier string) []interface{} {
 	}
 	ends := []string{"drop", "server-close", "client-close"}
 	okReplies := []string{"handshake", "handshake", "handshake-long", "handshake-ns", "handshake-text", "handshake-ws", "handshake-comment"}
-	badReplies := []string{"stream-error:not-authorized", "stream-error:conflict", "other:message", "unknown-ns", "close"}
+	badReplies := []string{"stream-error:not-authorized", "stream-error:conflict", "other:message", "unknown-ns", "close",
+		"malformed:handshake-start-then-close", "malformed:truncated", "text-only", "other:stream-close"}
 	sess := func(id, hdr, reply, end string, resume bool) c16Sess {
 		q := '\''
 		if hdr == "dq" {
@@ -476,6 +477,19 @@ func (c16) Gen(r *rand.Rand, tier string) []interface{} {
 			in.Sessions = append(in.Sessions, sess(id, "dq", "handshake", e, k > 0))
 		}
 		out = append(out, in)
+	}
+	// a session that was established and then closed in an orderly way (the component's state is
+	// still SessionEstablished: neither Disconnect nor the receive loop's handling of the
+	// server's </stream:stream> changes it), followed by a connection on which the server hangs
+	// up, or says something else, instead of answering the handshake: every such reply must
+	// leave an error AND a non-established state
+	for _, e := range []string{"server-close", "client-close"} {
+		for _, lost := range []string{"close", "malformed:handshake-start-then-close", "malformed:truncated", "text-only", "other:stream-close", "stream-error:not-authorized", "unknown-ns"} {
+			in := c16In{Kind: "reconnect", Secret: []byte("mypass")}
+			in.Sessions = append(in.Sessions, sess("first", "std", "handshake", e, false), sess("second", "std", lost, "client-close", true),
+				sess("third", "std", "handshake", "client-close", true))
+			out = append(out, in)
+		}
 	}
 	{ // a refused handshake in the middle must not disturb the next one either
 		in := c16In{Kind: "reconnect", Secret: []byte("mypass")}
@@ -839,7 +853,7 @@ func c16Serve(ln net.Listener, in c16In, atProlog <-chan struct{}, released chan
 		// the configured CharsetReader: the harness parks the component there until the server
 		// has sent the rest of the header and reset the connection.  The component then still
 		// reads the complete header from its receive queue, but its next write fails.
-		conn.Write([]byte("<?xml version='1.0' encoding='x-verif'?>"))
+		conn.Write([]byte(c16EncProlog))
 		select {
 		case <-atProlog:
 		case <-time.After(c16Wait):
@@ -1230,6 +1244,99 @@ func c16Abstract(in c16In) (pre Sx, writeOK bool, reply Sx) {
 	return pre, true, rp.abs
 }
 
+// c16HeaderBytes: exactly what the server writes as its stream header in this case (the
+// model reads these bytes itself: Model/StreamHeader.v).
+func c16HeaderBytes(in c16In) string {
+	if strings.HasPrefix(in.Pre, "badheader:") {
+		for _, v := range c16BadHeaders {
+			if "badheader:"+v.name == in.Pre {
+				return v.wire
+			}
+		}
+		return ""
+	}
+	prolog, rest := c16Header(in)
+	if in.Reply == "write-fail" {
+		prolog = c16EncProlog
+	}
+	return prolog + rest
+}
+
+const c16EncProlog = "<?xml version='1.0' encoding='x-verif'?>"
+
+// c16ReplyTokens: the reply as the token stream NextPacket reads it - encoding/xml's own
+// tokens (name spaces resolved in the context of the stream header that was sent), up to
+// the first syntax error or the end of what the server sends.  Which of these replies is a
+// handshake, a stream error, another packet or an error is the MODEL's business
+// (Model/Parser.v classify / next_packet through Model/ComponentWire.v).
+func c16ReplyTokens(header, wire string) Sx {
+	d := xml.NewDecoder(strings.NewReader(header + wire))
+	var toks []Sx
+	first := true
+	for {
+		tok, err := d.Token()
+		if err != nil {
+			break
+		}
+		if first { // everything up to and including the stream header's start tag is not part of the reply
+			if _, ok := tok.(xml.StartElement); ok {
+				first = false
+			}
+			continue
+		}
+		switch t := tok.(type) {
+		case xml.StartElement:
+			as := make([]Sx, len(t.Attr))
+			for i, a := range t.Attr {
+				as[i] = L(SBytes(a.Name.Space), SBytes(a.Name.Local), SBytes(a.Value))
+			}
+			toks = append(toks, L(Z(0), SBytes(t.Name.Space), SBytes(t.Name.Local), LS(as)))
+		case xml.EndElement:
+			toks = append(toks, L(Z(1), SBytes(t.Name.Space), SBytes(t.Name.Local)))
+		case xml.CharData:
+			toks = append(toks, L(Z(2), SBytes(string(t))))
+		default:
+			toks = append(toks, L(Z(3)))
+		}
+	}
+	return LS(toks)
+}
+
+// c16ModelReply: the reply as the model gets it: tokens wherever the reply is a document the
+// tokenizer can be run on; the abstract class only for a failing write and for the replies
+// generated from a depth parameter beyond what is worth shipping as tokens.
+func c16ModelReply(in c16In) Sx {
+	if in.Reply == "write-fail" {
+		return L(Z(3))
+	}
+	rp, ok := c16ReplyByName(in.Reply)
+	if !ok {
+		return L(Z(-1))
+	}
+	wire := rp.wire
+	if strings.HasPrefix(in.Reply, "other:deep-delegation-") {
+		if in.Depth > 40 {
+			return rp.abs
+		}
+		wire = c16DeepReply(strings.TrimPrefix(in.Reply, "other:deep-delegation-"), in.Depth)
+	}
+	hdr := c16HeaderBytes(in)
+	if strings.HasPrefix(in.Pre, "badheader:") || in.Pre == "ws" || in.Pre == "refused" {
+		return rp.abs // never read
+	}
+	return L(Z(4), c16ReplyTokens(hdr, wire))
+}
+
+func c16ModelPre(in c16In) Sx {
+	switch {
+	case in.Pre == "ws":
+		return L(Z(0))
+	case in.Pre == "refused":
+		return L(Z(1))
+	}
+	return L(Z(3), SBytes(c16HeaderBytes(in)))
+}
+
 func (c16) Input(inp interface{}) Sx {
 	in := inp.(c16In)
 	if in.Kind == "digest" {
@@ -1245,16 +1352,16 @@ func (c16) Input(inp interface{}) Sx {
 	if in.Kind == "reconnect" {
 		ss := make([]Sx, len(in.Sessions))
 		for i, s := range in.Sessions {
-			abs := L(Z(-1))
-			if rp, ok := c16ReplyByName(s.Reply); ok {
-				abs = rp.abs
+			hdr := s.Hdr
+			if hdr == "" {
+				hdr = "std"
 			}
-			ss[i] = L(SBytes(string(s.ID)), abs)
+			sin := c16In{Kind: "connect", ID: s.ID, Secret: in.Secret, Pre: "ok", Hdr: hdr, Wire: s.Wire, Reply: s.Reply}
+			ss[i] = L(Z(3), SBytes(c16HeaderBytes(sin)), c16ModelReply(sin))
 		}
 		return L(Z(3), LS(ss), SBytes(string(in.Secret)))
 	}
-	pre, w, reply := c16Abstract(in)
-	return L(Z(1), pre, SBytes(string(in.Secret)), B(w), reply)
+	return L(Z(1), c16ModelPre(in), SBytes(string(in.Secret)), B(in.Reply != "write-fail"), c16ModelReply(in))
 }
 
 // ---------------------------------------------------------------- direct oracle
